@@ -455,7 +455,9 @@ def gotLength (v : Variant) (p : PState) (b0 : Nat) (maskBit : Bool) (len : Nat)
   else gotMask v p b0 len none
 
 /-- `self._gen.send(bytes)`: resume `parse()` with the bytes it was waiting for -/
-def resume (v : Variant) (p : PState) (bytes : Bytes) : Except Exn (PState × Option Out) :=
+def resume (v : Variant) (p0 : PState) (bytes : Bytes) : Except Exn (PState × Option Out) :=
+  -- the awaitable that was pending is consumed: its bookkeeping fields are dead from here on
+  let p : PState := { p0 with remPred := 0, utf8 := false, buf := [] }
   match p.cont with
   | .header => .ok ({ p with cont := .hdr2, remPred := 1, utf8 := false, buf := [] }, some (.header bytes))
   | .hdr2 =>
@@ -616,24 +618,23 @@ def liftE (r : Except Exn α) : M α := fun s =>
   | .error x => .err x s
 
 /-- the `while pos < len(data)` loop of `Parser.feed` (frames phase), with the whole lazy
-    pipeline run after each bite -/
-def feedLoop (data : Bytes) : M Unit := fun s =>
-  if h : data = [] then .ok () s
+    pipeline run after each bite.  Result `true`: the data was consumed; `false`: the consumer
+    stopped iterating (`break` in `WebSocket.feed`: closed or rejected) and the rest is dropped. -/
+def feedLoop (data : Bytes) : M Bool := fun s =>
+  if h : data = [] then .ok true s
   else
     let n := s.p.remPred + 1
-    let chunk := data.take n
-    let rest := data.drop n
-    match biteBytes s.cfg.v s.p chunk with
+    match biteBytes s.cfg.v s.p (data.take n) with
     | .error x => .err x s
     | .ok (p', out) =>
       let s1 := { s with p := p' }
       match out with
-      | none => feedLoop rest s1
+      | none => feedLoop (data.drop n) s1
       | some o =>
         match onOut o s1 with
         | .err x s2 => .err x s2
-        | .ok true s2 => feedLoop rest s2
-        | .ok false s2 => .ok () s2
+        | .ok true s2 => feedLoop (data.drop n) s2
+        | .ok false s2 => .ok false s2
 termination_by data.length
 decreasing_by
   all_goals
@@ -668,9 +669,12 @@ def feedBody (data : Bytes) : M Unit := do
       match out with
       | some o =>
         let go ← onOut o
-        if go then feedLoop (buf.drop e)
-      | none => feedLoop (buf.drop e)
-  else feedLoop data
+        if go then
+          let _ ← feedLoop (buf.drop e)
+      | none =>
+        let _ ← feedLoop (buf.drop e)
+  else
+    let _ ← feedLoop data
 
 /-- `WebSocket.feed(data)` -/
 def wsFeed (data : Bytes) : M Unit := do
